@@ -2,12 +2,19 @@ import OhkamiModel.P.TopLevel
 import OhkamiModel.P.FangsBuild
 import OhkamiModel.P.FangsNodup
 import OhkamiModel.P.FangsBuildND
+import OhkamiModel.P.FangsHit
 /-! # C01 — property theorems.
 Spec level: `greedyChain` on the flat route table (statics first, look-ahead over forced static chains).
 Refinement: trie look-up = spec (segment level), byte-level search of the finalized router = trie look-up,
 and the trie built by registration + mounts + fang application has exactly the flattened routes. -/
 namespace C01
 open Ohkami Ohkami.Fangs
+
+/-- an application with a fang and a route, mounting under `/api/:v` an application with a fang that mounts a third one under `/ad` -/
+def exApp : App :=
+  .mk 0 true [([.static [104]], 1)]
+    [([.static [97, 112, 105], .param],
+      .mk 1 true [([.static [117]], 2)] [([.static [97, 100]], .mk 2 true [([], 3)] [])])]
 
 /-- **A hit is right**: whenever the router's specification answers with a handler, that handler's route matches the path
 segment by segment (static = identical bytes, param = non-empty segment, the captured params are those segments) and is
@@ -53,5 +60,26 @@ no two static children with the same bytes — so no registered route sits behin
 (This failed before fix 8878fb7: `merge_here` pushed the mounted application's children beside the parent's.) -/
 theorem siblings_distinct (cfg : App) (t : BN) (h : build cfg = some t) : ND t :=
   nd_build cfg t h
+
+/-- **A hit is a registered, matching route — with fang scopes too.**  For every application tree (fangs at any level; the finalized router
+inherits fang lists, compresses single-child static chains within a scope only and searches statics first — the very functions the
+correspondence run executes), whatever the fuel: if the search answers with a handler, that handler is registered, in the flattened
+configuration, on a route whose segments match the path one by one (`segUnder`: a static segment the identical bytes, a param any non-empty
+segment) with nothing left over. -/
+theorem hit_sound_scoped (cfg : App) (t : BN) (segs : List Bytes) (F G : Nat) (f : List Nat) (h : Nat) (hb : build cfg = some t)
+    (hs : search G (finalize true F t false) segs = (f, some h)) :
+    ∃ r, (r, h) ∈ flatRoutes cfg ∧ segUnder r segs = some [] :=
+  search_hit_sound cfg t segs F G f h hb hs
+
+/-- **No matching route, no handler — with fang scopes too**: the 404 half of the property for the router as it is built -/
+theorem miss_scoped (cfg : App) (t : BN) (segs : List Bytes) (F G : Nat) (hb : build cfg = some t)
+    (hno : ∀ r h, (r, h) ∈ flatRoutes cfg → segUnder r segs ≠ some []) :
+    (search G (finalize true F t false) segs).2 = none :=
+  search_miss cfg t segs F G hb hno
+
+/-- the two statements are about something: in the example application of C04 (three nested applications with fangs) `/api/7/u` is a hit of
+handler 2 under two mounts, `/api/7/x` a miss -/
+example : ((build C01.exApp).map fun t => ((search 9 (finalize true 9 t false) [[97, 112, 105], [55], [117]]).2,
+    (search 9 (finalize true 9 t false) [[97, 112, 105], [55], [120]]).2)) = some (some 2, none) := by decide
 
 end C01
